@@ -333,9 +333,9 @@ fn check_mixed(code: &str, units: &[usize], st: &mut Stats) -> CheckResult {
 fn run(cfg: &Cfg) -> Report {
     let mut rep = Report::new(
         cfg,
-        "proptest values over each documented inverse pair's domain: kelvin 0-2000 K (mK steps) and up to 1e6 K through °C and °F and between them; 19 scalar inverse compositions (trigonometric, hyperbolic, exp/log in bases e, 10, 2, sqrt/sqr, cbrt/cube) on their principal domains, a stated distance from ill-conditioned ends; Unix time in s/ms/µs over ±year 9999 (µs within ±2^53); instants (second + nanosecond) through unixtime and Julian date both ways; unit_list with 2-4 same-dimension prelude units of distinct size and the fixed conversions DMS, DM, feet_and_inches, pounds_and_ounces. Oracle: g(f(x)) = x within a per-pair tolerance derived from the conditioning (stated per pair in the harness; 1 unit of resolution for µs Unix time, exact for ms/s, 1e-4 s for Julian dates); mixed units: parts are in the listed units in descending order, all but the last are whole numbers, non-negative for non-negative input, and add up to the input (1e-9). non-trivial = x not 0/1 (mixed units: >= 2 non-zero parts); distinct = program text",
+        "proptest values over each documented inverse pair's domain: kelvin 0-2000 K (mK steps) and up to 1e6 K through °C and °F and between them; 19 scalar inverse compositions (trigonometric, hyperbolic, exp/log in bases e, 10, 2, sqrt/sqr, cbrt/cube) on their principal domains, a stated distance from ill-conditioned ends; Unix time in s/ms/µs over ±year 9999 (µs within ±2^53); instants (second + nanosecond, half of them within 95 years of 1970; also whole-microsecond instants through the microsecond functions) through unixtime and Julian date both ways; unit_list with 2-4 same-dimension prelude units of distinct size and the fixed conversions DMS, DM, feet_and_inches, pounds_and_ounces. Oracle: g(f(x)) = x within a per-pair tolerance derived from the conditioning (stated per pair in the harness; exact for s/ms/µs Unix time while the microsecond count is below 2^53, 1 unit beyond, 1e-4 s for Julian dates); mixed units: parts are in the listed units in descending order, all but the last are whole numbers, non-negative for non-negative input, and add up to the input (1e-9). non-trivial = x not 0/1 (mixed units: >= 2 non-zero parts); distinct = program text",
     );
-    let cases = cfg.tier.pick(4000u32, 100000u32);
+    let cases = cfg.tier.pick(12000u32, 150000u32);
     rep.absorb(run_proptest(
         cfg,
         "inverse",
